@@ -98,7 +98,7 @@ type verifC16Stream struct {
 // cut, end indication with or apart from the last bytes. verifC16Medium: readers
 // deliver at once, chunk sources in one chunk or 1+rest. verifC16Lean: one
 // delivery, an I/O error accompanies the last bytes. The thorough tier draws
-// everything rich.
+// everything one step richer.
 const (
 	verifC16Rich = iota
 	verifC16Medium
@@ -106,8 +106,8 @@ const (
 )
 
 func verifC16NewStream(id, maxT int, reader bool, level int) *verifC16Stream {
-	if vnd.Thorough() {
-		level = verifC16Rich
+	if vnd.Thorough() && level > verifC16Rich {
+		level-- // thorough tier: one step more detail
 	}
 	t := vnd.Choose(maxT + 1)
 	s := &verifC16Stream{data: vnd.Bytes(t), cut: t, ioErr: verifC16IOErrs[id]}
